@@ -9,6 +9,7 @@ import UPVerif.Core.Compile.DCR
 import UPVerif.Core.Compile.QR
 import UPVerif.Core.Compile.Grounder
 import UPVerif.Core.Compile.Hyps
+import UPVerif.Core.Compile.NCR
 /-!
 Line-protocol handler shared by C06 and C07: runs the executable model of a compiler on one case
 
@@ -103,8 +104,27 @@ def withHyps (s : Sexp) (tags : List String) : Sexp :=
 
 def paramsTag (P : Problem) : String := if paramsFree P then "params-free" else "has-params"
 
+
+/-- a quality metric in the wire format of `Core/Problem.lean` (`upp.enc_problem`) -/
+def metricSexp : Metric → Sexp
+  | .minActionCosts costs dflt =>
+    .list [.atom "min-action-costs", .list (costs.map (fun ce => .list [.atom ce.1, exprToSexp ce.2])),
+           (match dflt with
+            | some d => exprToSexp d
+            | none => .atom "_")]
+  | .minLength => .list [.atom "min-length"]
+  | .minFinal e => .list [.atom "min-final", exprToSexp e]
+  | .maxFinal e => .list [.atom "max-final", exprToSexp e]
+  | .oversub goals => .list [.atom "oversub", .list (goals.map (fun gw => .list [exprToSexp gw.1, .atom (ratToString gw.2)]))]
+
+/-- NegativeConditionsRemover rewrites the quality metrics too: they are part of its canonical view -/
+def compiledSexpM (P : Problem) (c : Compiled) : Sexp :=
+  match compiledSexp P c with
+  | .list l => .list (l ++ [.list (.atom "metrics" :: c.prob.metrics.map metricSexp)])
+  | s => s
+
 def notModelled : List String :=
-  ["ncr", "utf", "tcr", "uin",
+  ["utf", "tcr", "uin",
    "pipe:qr+cer", "pipe:qr+dcr", "pipe:sir+btr", "pipe:grounder+cer", "pipe:qr+cer+dcr+ncr", "pipe:utf+qr"]
 
 def handle : Sexp → Sexp
@@ -135,6 +155,10 @@ def handle : Sexp → Sexp
         | some c => withHyps (compiledSexp P c) (paramsTag P :: tagsOf "qr-hyps-ok" "qr-fails:" (qrClauses P c) ++
             tagsOf "qr-typed-ok" "qr-not-typed:" (typedClauses P))
       else if comp == "grounder" then handleGrounder P
+      else if comp == "ncr" then
+        match ncrCompile simp P with
+        | none => .list [.atom "raised"]
+        | some c => compiledSexpM P c
       else if notModelled.contains comp then .list [.atom "not-modelled"]
       else .atom "bad-case"
   | _ => .atom "bad-case"
